@@ -200,17 +200,30 @@ def check(ctx: Ctx) -> list[RuleResult]:
         r3.fail("hex_from_dts:width", fe.loc(), f"the packed timestamp needs {used.bit_length()} bits but is formatted as 12 hex digits (48 bits)")
     # dtm: encoder format order vs decoder slices
     fd, fe = repo.func(f"{H}.hex_to_dtm"), repo.func(f"{H}.hex_from_dtm")
-    inner = fe.nested.get("_dtm_to_hex")
+    from .common import expand, str_template
+
+    # the function that lays the fields out: the callee fed with `*<x>.timetuple()` (a closure or a module-level helper)
+    inner = None
+    for site in ctx.cg.calls_in(fe):
+        c0 = site.node
+        if isinstance(c0, ast.Call) and len(c0.args) == 1 and isinstance(c0.args[0], ast.Starred) and norm(c0.args[0].value).endswith(".timetuple()") and site.callees:
+            inner = site.callees[0]
     if inner is None:
-        raise AnalysisError("hex_from_dtm._dtm_to_hex not found")
-    fmt = [n for n in own_nodes(inner.node) if isinstance(n, ast.JoinedStr)]
+        raise AnalysisError("hex_from_dtm: the helper fed with *dtm.timetuple() was not found")
+    rets = [n for n in own_nodes(inner.node) if isinstance(n, ast.Return) and n.value is not None]
+    if len(rets) != 1:
+        raise AnalysisError(f"{inner.short}: expected a single return expression")
     order = []
     pos = 0
-    for v in fmt[0].values:
-        if isinstance(v, ast.FormattedValue):
-            w = int(re.fullmatch(r"0(\d)X", ctx.consts.eval_in(inner, v.format_spec)).group(1))  # type: ignore[union-attr]
-            order.append((norm(v.value), pos, pos + w))
-            pos += w
+    for kind, txt in str_template(inner.node, rets[0].value):
+        if kind == "lit":
+            pos += len(txt)
+            continue
+        m = re.fullmatch(r"(\w+):0(\d)X", txt)
+        if not m:
+            raise AnalysisError(f"{inner.short}: field `{txt}` is not formatted as fixed-width hex")
+        order.append((m.group(1), pos, pos + int(m.group(2))))
+        pos += int(m.group(2))
     slices: dict[str, tuple[int, int]] = {}
     for n in own_nodes(fd.node):
         if isinstance(n, ast.Call) and norm(n.func) == "dt":
@@ -339,14 +352,16 @@ def _dst_flag_sites(fe: FuncInfo) -> "list[tuple[ast.AST, set[int], tuple[int, i
             # f"{...:02X}" + var[2:]  - a 2-column head replaced in place
             head, tail = value.left, value.right
             k = cut_of(tail, var)
-            if k is not None and isinstance(head, ast.JoinedStr):
+            if k is not None:
+                from .common import str_template
+
                 w = 0
-                for part in head.values:
-                    if isinstance(part, ast.FormattedValue) and part.format_spec is not None:
-                        m = re.fullmatch(r"0(\d+)X", norm(part.format_spec).strip("'\"f"))
+                for kind, txt in str_template(fe.node, head):
+                    if kind == "lit":
+                        w += len(txt)
+                    else:
+                        m = re.search(r":0(\d+)X$", txt)
                         w += int(m.group(1)) if m else 99
-                    elif isinstance(part, ast.Constant):
-                        w += len(str(part.value))
                 return 0 if w == k else None
         return None
 
@@ -368,8 +383,11 @@ def _dst_flag_sites(fe: FuncInfo) -> "list[tuple[ast.AST, set[int], tuple[int, i
                     var, offs = tgt, {0}
                     continue
                 if var is not None and tgt == var:
-                    scan_flag(st.value, var, offs)
-                    k = cut_of(st.value, var)
+                    from .common import expand
+
+                    val = expand(fe.node, st.value)  # `secs = dtm_str[:2]` hoisted into a local
+                    scan_flag(val, var, offs)
+                    k = cut_of(val, var)
                     offs = {o + k for o in offs} if k is not None else set()
             elif isinstance(st, ast.If) and var is not None:
                 scan_flag(st.test, var, offs)
